@@ -40,6 +40,12 @@ class Prop(common.PropertyCheck):
         for i in range(self.budget(12, 120)):
             yield {'k': 'gate', 'n': [60, 600, 200][i % 3], 'data': 'f32grid', 'cont': 'array', 'bins': 'dec_edges', 'f': ['1', 'rand', 'k/n', 'default'][i % 4],
                    'sigma': ['small', 'scalar'][i % 2], 'nan': False, 'seed': rng.randrange(1 << 30)}
+        # grids of more than 4096 bins with exactly tied densities (a lattice, mirror symmetric): one fixed ranking serves every fraction
+        for i in range(self.budget(6, 40)):
+            yield {'k': 'gate', 'n': 6400, 'data': 'lattice', 'cont': 'array', 'bins': 'count80', 'f': ['0.1', '0.2', '0.3'][i % 3],
+                   'sigma': ['tiny', 'three'][i % 2], 'nan': False, 'seed': rng.randrange(1 << 30)}
+        for what in ('one_event_bin_mask', 'no_event_bin_mask'):
+            yield {'k': 'bad', 'what': what}
         for what in ('f<0', 'f>1', 'f<0 tiny', 'f>1 tiny', 'f<0 all outside', 'one_channel', 'three_channels', 'three_channels_two_distinct', 'four_channels_two_distinct', 'one_event'):
             yield {'k': 'bad', 'what': what}
 
@@ -96,6 +102,11 @@ class Prop(common.PropertyCheck):
             xy[r.choice(n, size=k, replace=False), r.randint(0, 2)] = np.nan
             xy[r.randint(0, n), :] = np.nan
             data = xy
+        if kind == 'lattice':
+            g = np.stack(np.meshgrid(np.arange(80), np.arange(80), indexing='ij'), axis=-1).reshape(-1, 2).astype(float)
+            xy = g[r.permutation(len(g))]
+            data = xy
+            bins = 80
         if kind == 'f32grid':
             g = (r.randint(0, 21, size=(n, 2)) * 0.1).astype(np.float32)
             data = g
@@ -103,7 +114,9 @@ class Prop(common.PropertyCheck):
             bins = [np.linspace(0, 2, 21), np.linspace(0, 2, 11)]
         scale = {'sample_linear': 'linear', 'sample_log': 'log', 'sample_logicle': 'logicle'}.get(bins_kind, 'logicle')
         fk = case['f']
-        if fk == '0':
+        if fk in ('0.1', '0.2', '0.3'):
+            f = float(fk)
+        elif fk == '0':
             f = 0.0
         elif fk == '1':
             f = 1.0
@@ -114,7 +127,9 @@ class Prop(common.PropertyCheck):
         else:
             f = float(r.uniform(0, 1))
         sk = case['sigma']
-        if sk == 'pair_wide':
+        if sk in ('tiny', 'three'):
+            sigma = 1e-4 if sk == 'tiny' else 3.0
+        elif sk == 'pair_wide':
             # very unequal per-axis widths, the larger one beyond the grid size / 6
             sigma = (1.0, float(r.choice([8.0, 9.0, 12.0]))) if r.rand() < 0.5 else (float(r.choice([8.0, 9.0, 12.0])), 1.0)
         else:
@@ -145,6 +160,11 @@ class Prop(common.PropertyCheck):
                     FlowCal.gate.density2d(a, [0, 1], bins=5, gate_fraction=float(np.nextafter(1.0, 2.0)))
                 elif w == 'f<0 all outside':
                     FlowCal.gate.density2d(a, [0, 1], bins=[np.linspace(200, 300, 4), np.linspace(200, 300, 4)], gate_fraction=-0.5)
+                elif w in ('one_event_bin_mask', 'no_event_bin_mask'):
+                    # re-gating with a stored bin mask is subject to the same minimum number of events
+                    full = FlowCal.gate.density2d(a, [0, 1], bins=5, gate_fraction=0.5, full_output=True)
+                    FlowCal.gate.density2d(a[:1] if w == 'one_event_bin_mask' else a[:0], [0, 1], bins=[np.asarray(e, dtype=float) for e in full.bin_edges],
+                                           bin_mask=np.asarray(full.bin_mask, dtype=bool))
                 elif w == 'one_channel':
                     FlowCal.gate.density2d(a, [0], bins=5)
                 elif w == 'three_channels':
@@ -265,6 +285,8 @@ class Prop(common.PropertyCheck):
     def model_request(self, case, impl):
         if case['k'] == 'bad' or 'err' in impl or not impl['finiteD']:
             return None
+        if len(impl['H']) > 2500:
+            return None         # the model's ranking is quadratic in the number of bins; large grids are judged by the oracle alone
         return {'op': 'density', 'H': impl['H'], 'D': impl['D'], 't': impl['t'], 'mask': impl['bin_mask']}
 
     def compare(self, case, impl, model):
